@@ -690,8 +690,12 @@ class CasXmiSerializer:
             raise ValueError(f"Not a primitive list: {type_name}")
 
         elements = []
+        seen_nodes = set()
         current = value
         while hasattr(current, "head"):
+            if id(current) in seen_nodes:
+                raise ValueError(f"Cannot serialize cyclic list of type [{type_name}] inline")
+            seen_nodes.add(id(current))
             elements.append(current.head)
             current = current.tail
         return elements
